@@ -176,6 +176,20 @@ def analyse(led, it, res, func, tag, sparse, Kt, Mt, replay):
                 probs.append('modes are %r, expected the solver eigenvectors scattered into the active rows' % (mbase,))
             if vsel != msel:
                 probs.append('values and modes are selected differently: %r vs %r (pairing of column i with value i is lost)' % (vsel, msel))
+            # ascending order (sort=True): the permutation must sort by the frequencies themselves; a key that merges neighbouring values
+            # (rounding) leaves them in the solver's order
+            perms = [x for x in vsel if isinstance(x, tuple) and x and x[0] == 'take' and isinstance(x[1], tuple) and x[1] and x[1][0] == 'perm']
+            if 'sort=True' in tag:
+                def has_round(t):
+                    return isinstance(t, tuple) and ((t and t[0] == 'round') or any(has_round(y) for y in t))
+                nm_asc = name + '/ascending-order'
+                if not perms:
+                    led.fail(nm_asc, func, {'differences': ['sort=True but the values are not permuted by a sort']}, signature='no-sort')
+                elif has_round(perms[0]):
+                    led.fail(nm_asc, func, {'differences': ['the sort key is rounded (%r): frequencies closer than the rounding step keep the order of the eigen-solver, '
+                                                            'which is not ascending in general' % (perms[0][1][1],)]}, signature='sort-key-rounded', replay=replay_rounded_sort())
+                else:
+                    led.ok(nm_asc, func)
         if probs:
             led.fail(name + '/post', func, {'differences': probs}, signature=';'.join(probs)[:150], replay=replay(None) if replay else None)
         else:
@@ -183,6 +197,36 @@ def analyse(led, it, res, func, tag, sparse, Kt, Mt, replay):
 
 
 PF = 'compmech/panel/_panel.py:Panel.freq'
+_RS = {}
+
+
+def replay_rounded_sort():
+    if 'r' in _RS:
+        return _RS['r']
+    from ..pyreplay import run_real
+    script = """
+import numpy as np
+from compmech.panel import Panel
+from compmech.analysis import freq
+def mk():
+    p = Panel(a=15., b=12., stack=[0], plyt=1e-3, laminaprop=(70e9, 70e9, 0.3), mu=2700., m=10, n=10, model='plate_clt_donnell_bardell')
+    p.w1tx = p.w2tx = p.w1ty = p.w2ty = 0.; p.w1rx = p.w2rx = p.w1ry = p.w2ry = 1.
+    return p
+p = mk()
+k0 = p.calc_k0(silent=True); kM = p.calc_kM(silent=True)
+res = {}
+for n in (5, 8):
+    ev, vec = freq(k0, kM, sparse_solver=True, silent=True, num_eigvalues=n)
+    res['analysis.freq,num=%d' % n] = [float(x) for x in np.real(ev)[:n]]
+    q = mk(); q.num_eigvalues = n; q.freq(silent=True, sparse_solver=True)
+    res['Panel.freq,num=%d' % n] = [float(x) for x in np.real(q.eigvals)[:n]]
+out = {'frequencies': res, 'not_ascending': [k for k, v in res.items() if any(b < a for a, b in zip(v, v[1:]))]}
+"""
+    r = run_real(script, {})
+    r['reproduced'] = bool(r.get('raised') or r.get('not_ascending'))
+    r['input'] = 'simply supported aluminium sheet 15 m x 12 m x 1 mm, m=n=10, sparse route, 5 and 8 frequencies requested (0.6928 and 0.7140 rad/s share the rounded key 0.7)'
+    _RS['r'] = r
+    return r
 
 
 def replay_panel_small(mdl):
